@@ -41,6 +41,7 @@ type vC11Case struct {
 	Key        int16  `json:"key"`
 	Version    int16  `json:"version"`
 	Body       string `json:"body"`
+	Fixture    string `json:"fixture"` // broker: loaded | bare ; proxy: static
 	Advertised bool   `json:"advertised"`
 }
 
@@ -88,22 +89,45 @@ func vC11Advertised(sets ...[]kmsg.ApiVersionsResponseApiKey) (keys []int16, adv
 	return keys, adv, listed
 }
 
-// vC11Cases enumerates key x (min-1 .. max+2) x bodies, simplest first.
-func vC11Cases(half string, modes []string, keys []int16, adv, listed map[int16]vC11Range) []vC11Case {
+// vC11Window is the version window around each listed range: quick min-1..max+2,
+// thorough min-2..max+4.
+func vC11Window() (below, above int) {
+	if vh.Thorough() {
+		return 2, 4
+	}
+	return 1, 2
+}
+
+// vC11Cases enumerates fixture x mode x key x (min-below .. max+above) x bodies, simplest first.
+func vC11Cases(half string, fixtures, modes []string, keys []int16, adv, listed map[int16]vC11Range) []vC11Case {
+	below, above := vC11Window()
 	var out []vC11Case
-	for _, mode := range modes {
-		for _, k := range keys {
-			r := listed[k]
-			for v := int(r.Min) - 1; v <= int(r.Max)+2; v++ {
-				a, isAdv := adv[k]
-				isAdv = isAdv && int16(v) >= a.Min && int16(v) <= a.Max
-				for _, b := range vC11Bodies(k) {
-					out = append(out, vC11Case{Half: half, Mode: mode, Key: k, Version: int16(v), Body: b.Name, Advertised: isAdv})
+	for _, fxn := range fixtures {
+		for _, mode := range modes {
+			for _, k := range keys {
+				r := listed[k]
+				for v := int(r.Min) - below; v <= int(r.Max)+above; v++ {
+					a, isAdv := adv[k]
+					isAdv = isAdv && int16(v) >= a.Min && int16(v) <= a.Max
+					for _, b := range vC11Bodies(k) {
+						out = append(out, vC11Case{Half: half, Mode: mode, Key: k, Version: int16(v), Body: b.Name, Fixture: fxn, Advertised: isAdv})
+					}
 				}
 			}
 		}
 	}
 	return out
+}
+
+// vC11Select narrows the cases to the one named by a replay artefact.
+func vC11Select(cases []vC11Case, only vC11Case) []vC11Case {
+	var sel []vC11Case
+	for _, c := range cases {
+		if c.Mode == only.Mode && c.Key == only.Key && c.Version == only.Version && c.Body == only.Body && (only.Fixture == "" || c.Fixture == only.Fixture) {
+			sel = append(sel, c)
+		}
+	}
+	return sel
 }
 
 func vC11FindBody(key int16, name string) *vC11Body {
@@ -222,14 +246,32 @@ func vC11Bodies(key int16) []vC11Body {
 
 	switch key {
 	case 0:
+		multiProduce := mk("multi", func(v int16, fx *vC11Fx) kmsg.Request {
+			r := produce(fx.Topic, -1)(v, fx).(*kmsg.ProduceRequest)
+			p1 := kmsg.NewProduceRequestTopicPartition()
+			p1.Partition = 1
+			p1.Records = fx.Batch
+			r.Topics[0].Partitions = append(r.Topics[0].Partitions, p1)
+			r.Topics = append(r.Topics, produce("nope", -1)(v, fx).(*kmsg.ProduceRequest).Topics[0])
+			return r
+		})
 		return []vC11Body{empty, mk("no-topics", func(v int16, fx *vC11Fx) kmsg.Request {
 			r := kmsg.NewPtrProduceRequest()
 			r.Acks = -1
 			r.TimeoutMillis = 1000
 			return r
-		}), mk("one", produce("t", -1)), mk("unknown", produce("nope", 1)), mk("acks0", produce("t", 0))}
+		}), mk("one", produce("t", -1)), mk("unknown", produce("nope", 1)), mk("acks0", produce("t", 0)), multiProduce}
 	case 1:
-		return both(fetch)
+		return append(both(fetch), mk("multi", func(v int16, fx *vC11Fx) kmsg.Request {
+			r := fetch(true)(v, fx).(*kmsg.FetchRequest)
+			p1 := kmsg.NewFetchRequestTopicPartition()
+			p1.Partition = 1
+			p1.FetchOffset = 5 // beyond the end
+			p1.PartitionMaxBytes = 1 << 20
+			r.Topics[0].Partitions = append(r.Topics[0].Partitions, p1)
+			r.Topics = append(r.Topics, fetch(false)(v, fx).(*kmsg.FetchRequest).Topics[0])
+			return r
+		}))
 	case 2:
 		return both(func(known bool) func(v int16, fx *vC11Fx) kmsg.Request {
 			return func(v int16, fx *vC11Fx) kmsg.Request {
@@ -270,7 +312,13 @@ func vC11Bodies(key int16) []vC11Body {
 				return r
 			}
 		}
-		return []vC11Body{empty, mk("one", byName(true)), mk("unknown", byName(false)), mk("one-by-id", byID(true)), mk("unknown-by-id", byID(false))}
+		return []vC11Body{empty, mk("one", byName(true)), mk("unknown", byName(false)), mk("one-by-id", byID(true)), mk("unknown-by-id", byID(false)),
+			mk("multi", func(v int16, fx *vC11Fx) kmsg.Request {
+				r := byName(true)(v, fx).(*kmsg.MetadataRequest)
+				r.Topics = append(r.Topics, byName(false)(v, fx).(*kmsg.MetadataRequest).Topics[0])
+				r.IncludeTopicAuthorizedOperations = true
+				return r
+			})}
 	case 8:
 		return both(func(known bool) func(v int16, fx *vC11Fx) kmsg.Request {
 			return func(v int16, fx *vC11Fx) kmsg.Request {
@@ -375,14 +423,18 @@ func vC11Bodies(key int16) []vC11Body {
 			}
 		})
 	case 15:
-		return both(func(known bool) func(v int16, fx *vC11Fx) kmsg.Request {
+		return append(both(func(known bool) func(v int16, fx *vC11Fx) kmsg.Request {
 			return func(v int16, fx *vC11Fx) kmsg.Request {
 				r := kmsg.NewPtrDescribeGroupsRequest()
 				r.Groups = []string{groupOr(known, fx)}
 				r.IncludeAuthorizedOperations = known
 				return r
 			}
-		})
+		}), mk("multi", func(v int16, fx *vC11Fx) kmsg.Request {
+			r := kmsg.NewPtrDescribeGroupsRequest()
+			r.Groups = []string{fx.Group, "nogroup"}
+			return r
+		}))
 	case 16:
 		return []vC11Body{empty, mk("filtered", func(v int16, fx *vC11Fx) kmsg.Request {
 			r := kmsg.NewPtrListGroupsRequest()
@@ -669,7 +721,7 @@ func vC11Judge(rep *vh.Report, c vC11Case, req kmsg.Request, corr int32, got vC1
 		rep.Count("unadvertised_cases", 1)
 	}
 	sig := func(outcome string, ec int16) string {
-		return fmt.Sprintf("%s/%s %s adv=%t -> %s ec=%d", c.Half, c.Mode, api, c.Advertised, outcome, ec)
+		return fmt.Sprintf("%s/%s/%s %s adv=%t -> %s ec=%d", c.Half, c.Fixture, c.Mode, api, c.Advertised, outcome, ec)
 	}
 	if got.Panic != "" {
 		rep.Count("panics", 1)
@@ -729,7 +781,9 @@ var vC11Notes = map[string][]string{}
 
 func vC11Note(rep *vh.Report, c vC11Case, outcome string) {
 	k := c.Half + "_" + outcome + "_cases"
-	vC11Notes[k] = append(vC11Notes[k], fmt.Sprintf("%s %s v%d %s adv=%t", c.Mode, vC11Name(c.Key), c.Version, c.Body, c.Advertised))
+	if len(vC11Notes[k]) < 24 { // the counter of the same name has the total
+		vC11Notes[k] = append(vC11Notes[k], fmt.Sprintf("%s/%s %s v%d %s adv=%t", c.Fixture, c.Mode, vC11Name(c.Key), c.Version, c.Body, c.Advertised))
+	}
 	rep.SetInfo(k, vC11Notes[k])
 }
 
@@ -740,4 +794,4 @@ func vC11Clip(b []byte, n int) []byte {
 	return b
 }
 
-const vC11Rule = "cases = every key listed by the real ApiVersions reply / generate*ApiVersions() x every version from min-1 to max+2 x 2-5 generated bodies per key (empty request; one topic-partition or one group operation on the existing topic/group; the same on an unknown topic/group; Produce also acks=0; Metadata also by topic id), each sent as franz-go-formatted bytes through the real request path. Outcome signature = (half/mode, API, advertised?, reply kind and response-header shape, first error code in the decoded reply). Non-trivial = a reply was produced and kmsg decoded it completely at the request version (trivial: no reply, refused, panic)."
+const vC11Rule = "cases = fixture x mode x every key listed by the real ApiVersions reply / generate*ApiVersions() x every version from min-1 to max+2 (thorough: min-2 to max+4) x 1-7 generated bodies per key (empty request; one topic-partition or one group operation on the existing topic/group; the same on an unknown topic/group; Produce also no-topics, acks=0; Metadata also by topic id; Produce/Fetch/Metadata/DescribeGroups also a known+unknown multi body), each sent as franz-go-formatted bytes through the real request path. Outcome signature = (half/fixture/mode, API, advertised?, reply kind and response-header shape, first error code in the decoded reply). Non-trivial = a reply was produced and kmsg decoded it completely at the request version (trivial: no reply, refused, panic)."
